@@ -341,8 +341,7 @@ pub fn generate_c15(run_seed: u64, thorough: bool, faults: bool) -> ListDesc {
                     let n = *g.r.pick(&[0usize, 1, 2, 3, 4, 5, 8, 9, 15, 16, 17, 31, 32, 33]);
                     Op::FromVec { dst: any(&mut g), vals: (0..n).map(|_| fresh(&mut g)).collect() }
                 }
-                // open finding F7: a zero-sized value used several times in one literal is not cloned
-                2 if elem != ElemKind::Zst => Op::Lit9 { dst: any(&mut g), vals: (0..3).map(|_| fresh(&mut g)).collect() },
+                2 => Op::Lit9 { dst: any(&mut g), vals: (0..3).map(|_| fresh(&mut g)).collect() },
                 _ => Op::Lit3 { dst: any(&mut g), vals: (0..3).map(|_| fresh(&mut g)).collect() },
             }
         } else {
@@ -400,11 +399,7 @@ pub fn generate_c15(run_seed: u64, thorough: bool, faults: bool) -> ListDesc {
                     }
                 }
                 17 => {
-                    // open finding F5 (known_findings.json): a script that pushes a zero-sized element it
-                    // only borrows (the loop variable) adds it without cloning it. That exact pattern is
-                    // left out of the random workload (it is replayed from findings/ at every check),
-                    // otherwise every history containing it would end there.
-                    let n = if elem == ElemKind::Zst { 0 } else { g.r.below(4) };
+                    let n = g.r.below(4);
                     if len > 20 { Op::Len { h } } else { Op::ForPush { h, n } }
                 }
                 18 => Op::Concat { a: h, b: h, dst: Some(any(&mut g)), plus: false },
@@ -412,11 +407,7 @@ pub fn generate_c15(run_seed: u64, thorough: bool, faults: bool) -> ListDesc {
                 21 => {
                     if len > 30 { Op::Len { h } } else { Op::IterWithPush { h, k: g.r.below(len + 2), v: fresh(&mut g) } }
                 }
-                _ => {
-                    // open finding F6: a zero-sized value handed to a script that does not pass it on is
-                    // never dropped; that pattern is replayed from findings/ and left out here
-                    if elem == ElemKind::Zst { Op::ForCount { h } } else { Op::ForFind { h, v: known(&mut g) } }
-                }
+                _ => Op::ForFind { h, v: known(&mut g) },
             }
         };
         let mut origin = if g.r.chance(1, 2) { Origin::Script } else { Origin::Rust };
